@@ -60,19 +60,26 @@ def sym_part(tag, n, base, lo, hi):
     return cs, pre, (b0, b1)
 
 
+# locales converted in the process before the symbolic runs (differential validation); replays repeat them first, so
+# that a witness that depends on what the process converted earlier reproduces
+HISTORY = ['en', 'de-rDE', 'fil', 'fil-rPH', 'es-r419', 'kok-rIN', 'zh-rTW', '\x00\x00', 'aa', 'zzz-r999']
+
+
 def run(ctx):
+    from .. import hook
+    hook.install(symkeys=('androguard.core.axml',))
     axml = common.axmlmod()
     axml.ord = sx_ord
     axml.chr = sx_chr
     ctx.functions_encoded = FUNCS
     ctx.bounds = dict(language='all 26^2 two-letter and all 26^3 packed three-letter codes',
                       region='absent, all two-character [A-Z0-9]^2, all three-digit codes')
-    ctx.stubs = ['SStr for symbolic strings (ord/chr/split/len)', 'sx_isinstance']
+    ctx.stubs = ['SStr for symbolic strings (ord/chr/split/len)', 'sx_isinstance',
+                 'dictionaries indexed with symbolic keys inside androguard.core.axml are compared with == (side table, reset per path)']
     ctx.assumptions = ['grammar: language = 2 or 3 lower-case ASCII letters; region = 2 upper-case letters/digits or 3 digits',
                        'the default locale word 0 is checked concretely']
     ctx.outside_claim = ['scripts and variants (localeScript / localeVariant)', 'three-character regions with letters']
-    cases = ['en', 'de-rDE', 'fil', 'fil-rPH', 'es-r419', 'kok-rIN', 'zh-rTW', '\x00\x00', 'aa', 'zzz-r999']
-    ctx.diff_unhooked(sys.modules[__name__], cases)
+    ctx.diff_unhooked(sys.modules[__name__], HISTORY)
     regions = {'c30_three_letter': None}
     for ln in (2, 3):
         for rk in ('none', 'AA', '999'):
@@ -136,6 +143,8 @@ def replay(w):
     s = w['text']
     word = aosp_word(s)
     try:
+        for h in HISTORY:
+            concrete(h)
         cfg = axml.ARSCResTableConfig(None, locale=s)
         back = cfg.get_language_and_region()
         c2 = axml.ARSCResTableConfig.__new__(axml.ARSCResTableConfig)
@@ -146,4 +155,4 @@ def replay(w):
     except Exception as e:
         return True, '%r raised %r' % (s, e)
     exp = [word, s, s, word]
-    return got != exp, 'locale %r: [word, read back, decoded, re-encoded] = %r, AOSP %r' % (s, got, exp)
+    return got != exp, 'locale %r (after converting %r in the same process): [word, read back, decoded, re-encoded] = %r, AOSP %r' % (s, HISTORY, got, exp)
